@@ -13,7 +13,7 @@ import (
 )
 
 func init() {
-	register("C14", "Variable coercion: (R1) reflect typestate — every reflect.Value method that panics on the zero Value (Type, Interface, Len, Index, MapKeys, MapIndex, SetMapIndex, IsNil, Elem) or on the wrong kind (Len, Index, Map*, IsNil, Elem) is preceded on every path by a validity / kind examination that excludes the panic (path-sensitive facts on IsValid(), Kind()==K, IsNil(); values from Elem() of a possibly nil pointer/interface and from MapIndex are possibly invalid; requirements on parameters are checked at call sites); (R2) nil safety of the coercer under the precondition that the operation passed validation, and its two panics are the 'missing definition' closure case and the default of a kind switch that covers exactly the input kinds; (R3) null is accepted only for nullable types: every success return of the coercer with a possibly invalid value, and every nil stored in the result, lies under NonNull == false; (R4) every value stored in the result map is nil (R3) or the coercer's result for that variable — defaults included; (R5) the success returns of the list case and of the input-object case cannot skip the element loop, the unknown-field loop or the per-field loop; (R6) recursion passes the child's own type (typ.Elem / fieldDef.Type); (R7) the per-field loop of the input-object case moves on without coercing a declared field only on paths where the field is absent from the input (MapIndex result known invalid) or its declared type is known nullable.", runC14)
+	register("C14", "Variable coercion: (R1) reflect typestate — every reflect.Value method that panics on the zero Value (Type, Interface, Len, Index, MapKeys, MapIndex, SetMapIndex, IsNil, Elem) or on the wrong kind (Len, Index, Map*, IsNil, Elem) is preceded on every path by a validity / kind examination that excludes the panic (path-sensitive facts on IsValid(), Kind()==K, IsNil(); values from Elem() of a possibly nil pointer/interface and from MapIndex are possibly invalid; requirements on parameters are checked at call sites); (R2) nil safety of the coercer under the precondition that the operation passed validation, and its two panics are the 'missing definition' closure case and the default of a kind switch that covers exactly the input kinds; (R3) null is accepted only for nullable types: every success return of the coercer with a possibly invalid value, and every nil stored in the result, lies under NonNull == false; (R4) every value stored in the result map is nil (R3) or the coercer's result for that variable — defaults included; (R5) the success returns of the list case and of the input-object case cannot skip the element loop, the unknown-field loop or the per-field loop; (R6) recursion passes the child's own type (typ.Elem / fieldDef.Type); (R7) the per-field loop of the input-object case moves on without coercing a declared field only on paths where the field is absent from the input (MapIndex result known invalid) or its declared type is known nullable. (R9) index and slice expressions reachable from VariableValues are in bounds (engine of C02.R6); (R10) every path through one iteration of the loop over the variable definitions that ends with the variable supplied (an explicit null included) or defaulted has written result[name].", runC14)
 }
 
 // reflect method tables
@@ -936,6 +936,9 @@ func runC14(c *Ctx) {
 		r9 := c.Rule("R9", "index and slice expressions reachable from VariableValues are in bounds", 10)
 		c02IndexSafety(c, r9, cs)
 	}
+	// ---- R10 every variable that has a value is written to the result
+	r10 := c.Rule("R10", "a supplied or defaulted variable is written to the result on every path", 1)
+	c14EveryValuedVariableWritten(c, r10, vv)
 }
 
 func displayKey(v ssa.Value) string {
@@ -984,4 +987,197 @@ func lastPos(b *ssa.BasicBlock) token.Pos {
 		}
 	}
 	return loopPos(b)
+}
+
+// c14EveryValuedVariableWritten (C14.R10 / C15.R8): in VariableValues' loop over the variable definitions, every
+// iteration that ends normally with "the variable has a value" true — it was found among the supplied variables (an
+// explicit null included) or took its default — has written result[name]. Decided by enumerating the paths of one
+// iteration (each inner back edge followed once), tracking the found flag of the lookup and the boolean phis fed by it
+// along each path, and pruning branches on them that contradict the tracked value.
+type c14Path struct {
+	b, prev *ssa.BasicBlock
+	vals    map[ssa.Value]bool
+	wrote   bool
+}
+
+func c14EveryValuedVariableWritten(c *Ctx, r *RuleResult, vv *ssa.Function) {
+	p := c.P
+	var found ssa.Value
+	var foundPos token.Pos
+	allInstrs(vv, func(in ssa.Instruction) {
+		lk, ok := in.(*ssa.Lookup)
+		if !ok || !lk.CommaOk {
+			return
+		}
+		if prm, isP := lk.X.(*ssa.Parameter); !isP || prm != vv.Params[len(vv.Params)-1] {
+			return
+		}
+		for _, ref := range *lk.Referrers() {
+			if ex, ok := ref.(*ssa.Extract); ok && ex.Index == 1 {
+				found, foundPos = ex, lk.Pos()
+			}
+		}
+	})
+	if found == nil {
+		r.AnchorLost("the comma-ok lookup of the supplied variables in VariableValues")
+		return
+	}
+	var resMap ssa.Value
+	for _, ret := range returnsOf(vv) {
+		if mm, ok := ret.Results[0].(*ssa.MakeMap); ok {
+			resMap = mm
+		}
+	}
+	if resMap == nil {
+		r.AnchorLost("the result map of VariableValues")
+		return
+	}
+	headers, bodies := loopsOf(vv)
+	var hdr *ssa.BasicBlock
+	fb := found.(ssa.Instruction).Block()
+	for _, h := range headers {
+		if bodies[h][fb] && (hdr == nil || len(bodies[h]) > len(bodies[hdr])) {
+			hdr = h
+		}
+	}
+	if hdr == nil {
+		r.AnchorLost("the loop over the variable definitions")
+		return
+	}
+	body := bodies[hdr]
+	var isFlag func(v ssa.Value) bool
+	flagMemo := map[ssa.Value]bool{}
+	isFlag = func(v ssa.Value) bool {
+		if v == found {
+			return true
+		}
+		if f, ok := flagMemo[v]; ok {
+			return f
+		}
+		flagMemo[v] = false
+		ph, ok := v.(*ssa.Phi)
+		if !ok || !isBoolType(ph.Type()) {
+			return false
+		}
+		for _, e := range ph.Edges {
+			if isFlag(e) {
+				flagMemo[v] = true
+				return true
+			}
+		}
+		return false
+	}
+	bad, paths := 0, 0
+	onBack := map[[2]*ssa.BasicBlock]bool{}
+	var walk func(s c14Path)
+	step := func(from, to *ssa.BasicBlock, vals map[ssa.Value]bool, wrote bool) {
+		if paths > 50000 {
+			return
+		}
+		if to == hdr {
+			paths++
+			// the variable has a value when any tracked flag is true: found itself, or a phi that took the constant true
+			has := false
+			for _, v := range vals {
+				has = has || v
+			}
+			if has && !wrote {
+				bad++
+			}
+			return
+		}
+		if !body[to] {
+			return
+		}
+		if to.Dominates(from) {
+			k := [2]*ssa.BasicBlock{from, to}
+			if onBack[k] {
+				return
+			}
+			onBack[k] = true
+			defer delete(onBack, k)
+		}
+		walk(c14Path{to, from, vals, wrote})
+	}
+	walk = func(s c14Path) {
+		b := s.b
+		vals := map[ssa.Value]bool{}
+		for k, v := range s.vals {
+			vals[k] = v
+		}
+		wrote := s.wrote
+		for _, in := range b.Instrs {
+			switch x := in.(type) {
+			case *ssa.Phi:
+				if !isFlag(x) {
+					continue
+				}
+				for i, pd := range b.Preds {
+					if pd != s.prev {
+						continue
+					}
+					e := x.Edges[i]
+					if cst, ok := e.(*ssa.Const); ok && cst.Value != nil {
+						vals[x] = cst.Value.String() == "true"
+					} else if v, ok := vals[e]; ok {
+						vals[x] = v
+					} else {
+						delete(vals, x)
+					}
+					break
+				}
+			case *ssa.MapUpdate:
+				if x.Map == resMap {
+					wrote = true
+				}
+			}
+		}
+		switch t := b.Instrs[len(b.Instrs)-1].(type) {
+		case *ssa.Return, *ssa.Panic:
+			return // an error return: not an iteration that ends normally
+		case *ssa.If:
+			cond, neg := ssa.Value(t.Cond), false
+			for {
+				u, ok := cond.(*ssa.UnOp)
+				if !ok || u.Op != token.NOT {
+					break
+				}
+				cond, neg = u.X, !neg
+			}
+			for i, sc := range b.Succs {
+				if !isFlag(cond) {
+					step(b, sc, vals, wrote)
+					continue
+				}
+				want := (i == 0) != neg
+				if v, ok := vals[cond]; ok && v != want {
+					continue
+				}
+				nv := map[ssa.Value]bool{}
+				for k, v := range vals {
+					nv[k] = v
+				}
+				nv[cond] = want
+				step(b, sc, nv, wrote)
+			}
+		default:
+			for _, sc := range b.Succs {
+				step(b, sc, vals, wrote)
+			}
+		}
+	}
+	for _, sc := range hdr.Succs {
+		if body[sc] && sc != hdr {
+			walk(c14Path{sc, hdr, map[ssa.Value]bool{}, false})
+		}
+	}
+	if paths == 0 {
+		r.Undecided(vv.Pos(), p.FuncName(vv), "iteration paths", "no path of the per-variable loop was enumerated")
+		return
+	}
+	if bad > 0 {
+		r.Fail(foundPos, p.FuncName(vv), "a variable that has a value is left out of the result", fmt.Sprintf("%d of the %d paths through one iteration end with the variable found among the supplied values (or defaulted) and nothing written to the result: an explicit null, for one, then looks like an absent variable, and argument and variable defaults override it later", bad, paths))
+	} else {
+		r.OK(fmt.Sprintf("VariableValues: %d paths through one iteration", paths), "every one that ends with 'has a value' true has written result[name]")
+	}
 }
